@@ -613,7 +613,9 @@ class Project:
         # Performance-critical path. We can rely on the project workspace and
         # job id to be well-formed, so just use str.join with os.sep instead of
         # os.path.join for speed.
-        return os.path.exists(os.sep.join((self.workspace, job_id)))
+        return JOB_ID_REGEX.fullmatch(job_id) is not None and os.path.exists(
+            os.sep.join((self.workspace, job_id))
+        )
 
     def __contains__(self, job):
         """Determine whether a job is in the project's data space.
